@@ -3,4 +3,4 @@
 From Coq Require Import Extraction ExtrOcamlBasic.
 From NJ Require Import Base Edits Registry Classify Select Reorder Machine Bind Monitors Conc Flows Generated.
 Extraction Language OCaml.
-Extraction "model.ml" edits_obs mon_C18 model_run mkCase mkTyenv mkTy mkPdesc mon_C03_plan mon_C03_plan_strict mon_C15_plan mkOprov run mstep minit calls_for dstep dinit dfinished condense_sig raw_down_flows raw_up_flows mon_C19_sig curry_plan curry_args saveto_plan struct_plan field_param fill vget.
+Extraction "model.ml" edits_obs mon_C18 model_run mkCase mkTyenv mkTy mkPdesc mon_C03_plan mon_C03_plan_strict mon_C15_plan mkOprov run mstep minit calls_for ustep uinit dstep dinit dfinished condense_sig raw_down_flows raw_up_flows mon_C19_sig curry_plan curry_args saveto_plan struct_plan field_param fill vget.
